@@ -260,12 +260,23 @@ Definition op_steps (r : Z) (fs : fsys) (o : op) : list step :=
   | OpScratch c m B sd => scratch_steps fs r c m B sd
   end.
 
+(* The reader the procedure is called on must have been opened: compress_file
+   needs the flat binary of the recording, the two decompressions need a
+   readable x.cbin/x.ch pair (Reader.open parses x.ch). *)
+Definition op_enabled (r : Z) (fs : fsys) (o : op) : bool :=
+  match o with
+  | OpCompress _ _ _ _ _ => is_complete (fs PBin) (Orig r)
+  | OpDecompress c _ _ _ _ _ | OpScratch c _ _ _ =>
+      is_complete (fs PCbin) (Comp r c) && is_complete (fs PCh) (Hdr r c)
+  end.
+
 (* A history: each call may be hit by a fault; the next call starts from
    whatever the previous one left behind. *)
 Fixpoint run_history (r : Z) (fs : fsys) (h : list (op * option nat)) : fsys :=
   match h with
   | [] => fs
-  | (o, f) :: h' => run_history r (final_fs (exec (op_steps r fs o) fs f)) h'
+  | (o, f) :: h' =>
+      run_history r (if op_enabled r fs o then final_fs (exec (op_steps r fs o) fs f) else fs) h'
   end.
 
 (* ====================================================================== *)
